@@ -306,13 +306,25 @@ pub fn strategy() -> BoxedStrategy<Case> {
 /// terms nested 100..=600 levels deep with one constructor, or compounds with 100..=400 composite
 /// components (the property quantifies over any depth and any arity)
 pub fn very_deep() -> BoxedStrategy<Case> {
-    gen::fmt_and(|fi| {
+    very_deep_to(5000)
+}
+
+/// `huge` = upper bound of the occasional very wide compound (the lexical parser's cost grows
+/// with the square of the text length, so C02 stays at 400)
+pub fn very_deep_to(huge: usize) -> BoxedStrategy<Case> {
+    gen::fmt_and(move |fi| {
         let o = gen::TermOpts { deep_max: 600, ..gen::TermOpts::main(fi) };
         let non_atoms: Vec<Kind> = ALL_KINDS.iter().copied().filter(|k| !k.is_atom()).collect();
         let small = gen::atom(gen::TermOpts { placeholders: false, ..o });
         let multi: Vec<Kind> = ALL_KINDS.iter().copied().filter(|k| k.is_multi()).collect();
-        (proptest::sample::select(non_atoms), 100usize..=600, small.clone(), small, any::<u16>(), gen::punct(), any::<bool>(), proptest::option::weighted(0.3, (proptest::sample::select(multi), prop_oneof![85 => 100usize..=400, 15 => 1000usize..=5000])))
-            .prop_map(|(k, depth, base, side, frac, p, as_sentence, wide)| {
+        (proptest::sample::select(non_atoms), 100usize..=600, small.clone(), small, any::<u16>(), gen::punct(), any::<bool>(), proptest::option::weighted(0.3, (proptest::sample::select(multi), prop_oneof![85 => 100usize..=400, 15 => (huge / 5).max(100)..=huge.max(400)])))
+            .prop_map(move |(k, depth, base, mut side, frac, p, as_sentence, wide)| {
+                // `side` is repeated at every level: keep it short (a 300-character name × 600
+                // levels would make a 180 000-character text; long names are C01's other streams')
+                if side.name.chars().count() > 8 {
+                    let short: String = side.name.chars().take(8).collect();
+                    side.name = gen::fix_name(fi, gen::NameProfile::Main, &short);
+                }
                 let mut cur = base;
                 if let Some((wk, n)) = wide {
                     // very WIDE instead: n composite components (distinct names so sets keep them all)
